@@ -69,11 +69,14 @@ class Lab:
         self.seq += 1
         return os.path.join(self.root, f"io{self.seq}{suffix}")
 
-    def run_cpp(self, proto, infmt, outfmt, inpath, outpath, bufsizes=(), timeout=60, empty_batches=False):
+    def run_cpp(self, proto, infmt, outfmt, inpath, outpath, bufsizes=(), timeout=60, empty_batches=False, prefill=False):
         env = dict(os.environ, ASAN_OPTIONS="detect_leaks=0:abort_on_error=0", UBSAN_OPTIONS="print_stacktrace=1")
         env.pop("VF_EMPTY_BATCHES", None)
+        env.pop("VF_PREFILL", None)
         if empty_batches:
             env["VF_EMPTY_BATCHES"] = "1"
+        if prefill:
+            env["VF_PREFILL"] = "1"
         try:
             p = subprocess.run([self.exe, proto, infmt, outfmt, inpath, outpath] + [str(b) for b in bufsizes],
                                stdout=subprocess.PIPE, stderr=subprocess.PIPE, timeout=timeout, env=env)
